@@ -152,8 +152,8 @@ func cmdDump(args []string) int {
 		fmt.Fprintln(os.Stderr, err)
 		return 2
 	}
-	for _, c := range w.db.sortedContracts() {
-		if !strings.Contains(c.Key, *fname) || c.Fn == nil {
+	for _, c := range w.allTargets() {
+		if !(strings.Contains(c.Key, *fname) || strings.HasPrefix(*fname, "=") && c.Key == (*fname)[1:]) || c.Fn == nil {
 			continue
 		}
 		res := verifyFunction(w.prog, w.db, c.Fn, c, modulePath, w.sent)
@@ -390,7 +390,7 @@ func runCheck(o checkOpts) int {
 		if !confirmed {
 			suffix = " no-failing-input-found"
 		}
-		fmt.Printf("FAILED-OBLIGATION %s verdict=%s solver=%s text=%q\n", ob.Name, ob.Verdict, ob.Solver, ob.Text)
+		fmt.Printf("FAILED-OBLIGATION %s verdict=%s solver=%s pos=%s text=%q\n", ob.Name, ob.Verdict, ob.Solver, ob.Pos, ob.Text)
 		fmt.Printf("VIOLATION property=%s replay=%s%s\n", prop, path, suffix)
 	}
 	if o.verbose {
